@@ -248,6 +248,30 @@ def run(P, R):
             'validator-type|_get_strategy', gs.loc(), 'RPCInterface._get_strategy accepts %s: with isinstance() a boolean '
             '(a subclass of int) is mapped to a strategy instead of raising INCORRECT_PARAMETERS' %
             {k: sorted(v) for k, v in look.items()})
+    # ... and neither lookup can fail with anything but the fault: KeyError / ValueError are caught around them, or the
+    # facts in front of them exclude a miss (membership; BOTH bounds for a value)
+    for v, facts, n in returns(gs):
+        if v is None or n is None:
+            continue
+        caught = {nm for level in (fmg.handlers.get(id(v), ()) or fmg.handlers.get(id(n), ())) for h in level for nm in h}
+        fs = {(f[0], f[1]) for f in facts}
+        txt = ast.unparse(v)
+        if txt == '%s[%s]' % (kls, arg):
+            okl = 'KeyError' in caught or ('%s in %s.__members__' % (arg, kls), True) in fs
+            exc = 'KeyError'
+        elif txt == '%s(%s)' % (kls, arg):
+            lower = any(f in fs for f in (('%s >= 0' % arg, True), ('0 <= %s' % arg, True), ('%s < 0' % arg, False),
+                                          ('0 > %s' % arg, False), ('0 <= %s < len(%s)' % (arg, kls), True)))
+            upper = any(('len(%s)' % kls) in f[0] for f in fs)
+            member = any(f[1] and f[0].startswith('%s in ' % arg) and kls in f[0] for f in fs)
+            okl = 'ValueError' in caught or member or (lower and upper)
+            exc = 'ValueError'
+        else:
+            continue
+        R.check(r2, okl, '`%s` cannot fail with a bare %s' % (txt, exc), 'validator-lookup|%s' % exc, gs.loc(n),
+                'RPCInterface._get_strategy evaluates `%s` neither inside try/except %s nor behind facts that exclude a '
+                'miss (facts: %s): a bare %s leaves the XML-RPC instead of Faults.INCORRECT_PARAMETERS' %
+                (txt, exc, sorted(fs), exc))
     # NOT_MANAGED and the program-name test
     for name in ('start_application', 'test_start_application', 'stop_application', 'restart_application'):
         u = P.unit('RPCInterface.' + name)
